@@ -678,6 +678,10 @@ def asarray(x, dtype=None):
         return x.astype(dtype)
     if hasattr(x, "__symx_array__"):
         return asarray(x.__symx_array__(), dtype)
+    if hasattr(x, "__array__") and not isinstance(x, (SV, I, Q, F, list, tuple)) and type(x).__module__.split(".")[0] != "numpy":
+        r = x.__array__()      # e.g. ConfusionMatrix.__array__ -> its matrix
+        if isinstance(r, ndarray):
+            return asarray(r, dtype)
     cells, shape = _from_nested(x)
     k = _dt(dtype)
     if k is not None:
